@@ -707,7 +707,7 @@ pub open spec fn mw_final<W: Stream>(m0: Mp4Writer<W>, out: Seq<u8>, moov: MoovB
     let n = m0.tracks@.len() as int;
     let p0 = m0.writer.pos() as int;
     let pn = p0 + pending_sum(m0.tracks@, n);
-    &&& moov.traks@.len() == n
+    &&& moov.traks@.len() == n && moov_wire(moov)
     &&& forall|i: int| 0 <= i < n ==> trak_of_track(#[trigger] moov.traks@[i], m0.tracks@[i], (p0 + pending_sum(m0.tracks@, i)) as u64)
     &&& moov.mvhd.timescale == m0.timescale && moov.mvhd.duration == m0.duration
     &&& moov.mvhd.version == (if m0.duration > 0xffff_ffff { 1u8 } else { 0u8 }) && moov.mvex is None && moov.meta is None && moov.udta is None
